@@ -29,10 +29,10 @@ CHECKS = {
          "Held on the schemas and queries executed: 30 schemas x 60 queries x ~5 relations quick (1500 schemas thorough): all column types, nullable columns, composite/unique/late indexes, insert/upsert/on-conflict/update/delete/multi-statement txs, comparisons, ranges, IN, LIKE, IS NULL, boolean combinations, ORDER BY 1-3 columns, LIMIT/OFFSET under a total order, DISTINCT, GROUP BY with aggregates, joins, subqueries, historical queries; the access path of each side is recorded.",
          "No hand-written SQL semantics: only relations between executions; float aggregates, -0.0/+0.0 and far timestamps (known C15 findings) and NaN are not generated; an error on both sides of a relation is not judged.", "DESIGN.md 2/C11"),
  "C12": ("exploration", "runtime invariant monitoring: concurrent sessions run constraint-hostile DDL/DML; after commits a read-only scan checks PK/unique distinctness, NOT NULL, CHECK (engine and harness evaluators), lengths, generated keys; a permissive model applies committed transactions in store tx order and checks that no certainly-violating statement committed and that contents equal the model (atomicity)",
-         "Held on the programs executed: 60 programs quick / 3000 thorough, 1-8 sessions, autocommit / implicit / BEGIN..COMMIT / stepwise transactions, ~45 % of statements aimed at one constraint (duplicate PK or unique tuple, NULL into NOT NULL, CHECK false, over-long value, wrong type, PK update, explicit auto-increment key), concurrent and quiescent DDL, hook perturbation in a third of the programs.",
+         "Held on the programs executed: 60 programs quick / 3000 thorough, 1-8 sessions, autocommit / implicit / BEGIN..COMMIT / stepwise transactions, ~45 % of statements aimed at one constraint (duplicate PK or unique tuple, NULL into NOT NULL, CHECK false, over-long value, wrong type, PK update, explicit auto-increment key, explicit and generated keys mixed inside one transaction with ON CONFLICT variants), concurrent and quiescent DDL, hook perturbation in a third of the programs.",
          "NULL semantics in unique indexes and the engine's extra rule on explicit auto-increment keys are left to the engine (either outcome accepted); only committed state is judged.", "DESIGN.md 2/C12"),
  "C13": ("exploration", "runtime monitoring against a reference interpreter of the generated SQL subset: per statement rows / affected-row counts / generated keys / error class; committed txs replayed in header-id order; uncommitted and read-only txs must be explained by one committed state in their window; final contents equal committed txs only; dead handles probed with Commit",
-         "Held on the programs executed: 150 cases quick / 5000 thorough of 1-6 concurrent sessions x 4-8 transaction programs (insert, multi-row insert, upsert, update, delete, select, count, hinted index scans, injected failures, SAVEPOINT / ROLLBACK TO / RELEASE nested to 3, commit / rollback / cancel, read-only sessions) through the engine API.",
+         "Held on the programs executed: 150 cases quick / 15000 thorough of 1-6 concurrent sessions x 4-8 transaction programs (insert, multi-row insert, upsert, update, delete, select, count, hinted index scans, injected failures, SAVEPOINT / ROLLBACK TO / RELEASE nested to 3, commit / rollback / cancel, read-only sessions, concurrent DDL commits with read-only transactions opened right after acknowledged commits) through the engine API.",
          "The generated subset only (integer PK, INTEGER/VARCHAR/BOOLEAN columns, NULL-unambiguous predicates); DDL inside transactions and the pkg/server session / PostgreSQL wire front-ends are not driven.", "DESIGN.md 2/C13"),
  "C14": ("exploration", "runtime monitoring against a ledger: after every truncation cut (copies, in place racing writers/readers, gated schedules via hook points) every tx is re-read (headers, proofs, exports for all ids; values, Get, History for ids >= cut); non-termination decided from goroutine state in two dumps, never from elapsed time; database-level truncation followed by restart and SQL/document use",
          "Held on the histories executed: 12 histories x all cuts quick / 400 thorough with 1-8 committers and hook delays after the value append (values out of id order), IO concurrency 1-4, file size 256 B-4 KiB, value cache 0/8/64, empty values first/middle/last/all, single/repeated/concurrent truncation, restart; ~570 truncations and ~1700 truncated txs observed per quick run.",
